@@ -305,6 +305,13 @@ class PyTree(object):
                     return f(fn.value).split(*[f(a) for a in node.args])
                 if fn.attr == 'keys' and not node.args:
                     return list(f(fn.value).keys())
+                if dotted(fn) == 'str.maketrans' and len(node.args) in (1, 2) and not node.keywords:
+                    try:
+                        return str.maketrans(*[f(a) for a in node.args])
+                    except Unfoldable:
+                        raise
+                    except Exception as e:
+                        raise Unfoldable(str(e))
                 if dotted(fn) == 're.escape' and len(node.args) == 1:
                     import re
                     return re.escape(f(node.args[0]))
